@@ -153,7 +153,7 @@ def mask_of(case, j, trial=0):
         ee, kk = np.meshgrid(np.arange(d['E']), np.arange(case['K']))
         flip = ((ee * 7 + kk * 3 + trial) % 3) == 0
         m = np.where(flip, ~m, m)
-        if not m.any() and any(d['y0']):
+        if not m.any() and any(d['y0']) and d['E'] > 0:
             m[0, 0] = True
     return m
 
